@@ -1,7 +1,7 @@
 (* C18 — adaptive discretisation tiles the domain; VOGP_AD declares only finest leaves. *)
 From Coq Require Import QArith List Bool.
 From VOPy Require Import Spec Adaptive AdaptiveProofs AdaptiveRefine.
-From VOPyGen Require Import Gen_algos Gen_adaptive.
+From VOPyGen Require Import Gen_algos Gen_adaptive Gen_opt.
 Import ListNotations.
 Open Scope Q_scope.
 
@@ -102,3 +102,9 @@ Theorem C18_regenerated_children_are_the_model_children : forall c b,
   (forall d, gen_child_depth d = S d) /\ gen_child_inherits_parent_region = true.
 Proof. intros c b. split; [exact (gen_child_cells_is_children c)|split; [exact (gen_child_point_is_centre b)|split; [intros; reflexivity|reflexivity]]]. Qed.
 Print Assumptions C18_regenerated_children_are_the_model_children.
+
+(* should_refine_design REGENERATED: its first statement refuses refinement at or beyond the maximum depth — the guard of the
+   model's Refine step *)
+Theorem C18_regenerated_refinement_guard : forall depth maxd, gen_refine_allowed depth maxd = Nat.ltb depth maxd.
+Proof. intros depth maxd. unfold gen_refine_allowed. destruct (Nat.leb_spec maxd depth) as [H|H]; cbn [negb]; symmetry; [apply Nat.ltb_ge | apply Nat.ltb_lt]; exact H. Qed.
+Print Assumptions C18_regenerated_refinement_guard.
